@@ -80,6 +80,7 @@ class State:
         self.depth = 0
         self.memo = {}
         self.facts = set()
+        self.fresh_refs = frozenset()
 
     def heap_sig(self):
         """Signature of the heap contents (initial arrays, created lazily on first read, do not count)."""
@@ -87,7 +88,8 @@ class State:
             return z3.is_const(v) and v.decl().kind() == z3.Z3_OP_UNINTERPRETED and v.decl().name() == f"H0_{k}"
         return hash(tuple(sorted((k, v.get_id()) for k, v in self.heap.items() if not pristine(k, v)))
                     + tuple(sorted((k, v.term.get_id()) for k, v in self.ghost.items()
-                                   if isinstance(v, V) and not str(v.term).endswith("0"))))
+                                   if isinstance(v, V) and not str(v.term).endswith("0")))
+                    + (self.ghost.get("__params_version__", 0),))
 
     def copy(self):
         s = State.__new__(State)
@@ -102,6 +104,7 @@ class State:
         s.depth = self.depth
         s.memo = dict(self.memo)
         s.facts = set(self.facts)
+        s.fresh_refs = self.fresh_refs
         return s
 
     @property
@@ -147,6 +150,7 @@ class Engine:
         self.no_prune = 0
         self._ground_cache = {}
         self.accessed_param_keys = set()
+        self.accessed_key_terms = []
         self.loop_counter = {}
         self.current_file = None
 
@@ -190,19 +194,24 @@ class Engine:
 
     def read_field(self, st, ref, owner, field, kind):
         arr = self.heap_array(st, owner, field, kind)
+        # peephole: read of a location that was just written
+        if z3.is_app(arr) and arr.decl().kind() == z3.Z3_OP_STORE and arr.arg(1).eq(ref.term):
+            return V(kind, arr.arg(2))
         return V(kind, z3.Select(arr, ref.term))
 
     def write_field(self, st, ref, owner, field, kind, val):
         arr = self.heap_array(st, owner, field, kind)
         term = self.coerce(val, kind, st).term
         st.heap[f"{owner}.{field}"] = z3.Store(arr, ref.term, term)
-        st.writes.add(f"{owner}.{field}")
+        if ref.term.get_id() not in st.fresh_refs:
+            st.writes.add(f"{owner}.{field}")
 
     def new_object(self, st, cls, base="obj"):
         r = z3.Const(fresh_name(base), RefSort)
         st.assume(r != NULL)
         st.assume(z3.Not(z3.Select(st.alloc, r)))
         st.alloc = z3.Store(st.alloc, r, z3.BoolVal(True))
+        st.fresh_refs = st.fresh_refs | {r.get_id()}
         return V(Ref(cls), r)
 
     def coerce(self, val, kind, st=None):
@@ -890,6 +899,10 @@ class Engine:
             h = self.schema_lookup(cls, "methods", name)
             if h is not None:
                 yield from self.nonnull(recv, st, node, lambda st2: h(self, st2, recv, args, kwargs, node))
+                return
+            owner0, kind0 = self.field_kind(cls, name)
+            if kind0 is not None and not kind0.smt and (f"{owner0}.{name}", recv.term.get_id()) in st.pyheap:
+                yield from self.call(st.pyheap[(f"{owner0}.{name}", recv.term.get_id())], args, kwargs, st, node)
                 return
             fs = self.index.method(cls, name)
             if fs is not None:
